@@ -152,7 +152,7 @@ func buildWorld(r *rng.R, small bool) *world {
 	}}
 	outer.Fields["self"] = &graphql.InputValueDefinition{Type: outer}
 	opt := &graphql.InputObjectType{Name: "Opt", Fields: map[string]*graphql.InputValueDefinition{
-		"a": {Type: graphql.IntType}, "f": {Type: graphql.FloatType}, "b": {Type: graphql.BooleanType}, "x": {Type: custom}, "y": {Type: anyT}}}
+		"a": {Type: graphql.IntType}, "f": {Type: graphql.FloatType}, "b": {Type: graphql.BooleanType}, "x": {Type: custom}, "y": {Type: anyT}, "ys": {Type: li(nn(anyT))}}}
 
 	named := &graphql.InterfaceType{Name: "Named"}
 	node := &graphql.InterfaceType{Name: "Node"}
@@ -194,7 +194,7 @@ func buildWorld(r *rng.R, small bool) *world {
 			return &graphql.FieldDefinition{Type: graphql.FloatType, Arguments: args("x", graphql.FloatType, "ids", li(nn(graphql.IDType)))}
 		},
 		"cmp": func() *graphql.FieldDefinition {
-			return &graphql.FieldDefinition{Type: graphql.StringType, Arguments: args("in", outer, "ins", li(inner), "opt", opt, "e", size, "any", anyT, "cu", custom, "oo", strict, "grid", li(li(graphql.IntType)), "b", nn(graphql.BooleanType))}
+			return &graphql.FieldDefinition{Type: graphql.StringType, Arguments: args("in", outer, "ins", li(inner), "opt", opt, "e", size, "any", anyT, "anys", li(anyT), "anysn", li(nn(anyT)), "oos", li(strict), "cu", custom, "oo", strict, "grid", li(li(graphql.IntType)), "b", nn(graphql.BooleanType))}
 		},
 		"alpha":  func() *graphql.FieldDefinition { return &graphql.FieldDefinition{Type: o1} },
 		"beta":   func() *graphql.FieldDefinition { return &graphql.FieldDefinition{Type: nn(o2)} },
